@@ -106,29 +106,36 @@ inductive Head
 
 def clockNames : List String := ["sat_clock_bias", "sat_clock_drift", "sat_clock_drift_rate"]
 
+/-- the three clock values of the epoch line, through `_float` -/
+def clockOf (vs : List (String × Str)) : Option (List (String × Rat)) :=
+  clockNames.mapM fun n => (floatField (get vs n)).map fun q => (n, q)
+
+/-- the civil epoch of a RINEX 3 epoch line (`int()` / `float()` of its fields) -/
+def epoch3 (vs : List (String × Str)) : Option Epoch := do
+  let sys := get vs "system"
+  let y ← parseInt? (get vs "year"); let mo ← parseInt? (get vs "month"); let d ← parseInt? (get vs "day")
+  let h ← parseInt? (get vs "hour"); let mi ← parseInt? (get vs "minute"); let s ← parseFloat (get vs "second")
+  pure ⟨sys, sys ++ zfill 2 (get vs "sat_num"), y, mo, d, h, mi, s⟩
+
 /-- `Rinex3NavParser._parse_observation_epoch` -/
 def head3 (vs : List (String × Str)) : Option Head :=
   if ((get vs "sat_clock_drift").getLast?.map isAlpha).getD false then some .skipHeaderLine
-  else
-    let sys := get vs "system"
-    if sys = ['S'] ∨ sys = ['R'] then some .skipSystem
-    else do
-      let y ← parseInt? (get vs "year"); let mo ← parseInt? (get vs "month"); let d ← parseInt? (get vs "day")
-      let h ← parseInt? (get vs "hour"); let mi ← parseInt? (get vs "minute"); let s ← parseFloat (get vs "second")
-      let cl ← clockNames.mapM fun n => (floatField (get vs n)).map fun q => (n, q)
-      pure (.ok ⟨sys, sys ++ zfill 2 (get vs "sat_num"), y, mo, d, h, mi, s⟩ cl)
+  else if get vs "system" = ['S'] ∨ get vs "system" = ['R'] then some .skipSystem
+  else (epoch3 vs).bind fun e => (clockOf vs).map fun cl => .ok e cl
+
+/-- the civil epoch of a RINEX 2 epoch line: two-digit year 80–99 ↦ 19yy, else 20yy -/
+def epoch2 (system : Str) (vs : List (String × Str)) : Option Epoch := do
+  let yy ← parseInt? (get vs "year")
+  let yr4 ← parseInt? ((if 80 ≤ yy ∧ yy ≤ 99 then ['1', '9'] else ['2', '0']) ++ zfill 2 (get vs "year"))
+  let mo ← parseInt? (get vs "month"); let d ← parseInt? (get vs "day")
+  let h ← parseInt? (get vs "hour"); let mi ← parseInt? (get vs "minute"); let s ← parseFloat (get vs "second")
+  let sat := system ++ zfill 2 (get vs "sat")
+  pure ⟨sat.take 1, sat, yr4, mo, d, h, mi, s⟩
 
 /-- `Rinex2NavParser._parse_observation_epoch` (`system` comes from the file extension) -/
 def head2 (system : Str) (vs : List (String × Str)) : Option Head :=
   if ((get vs "sat_clock_drift_rate").head?.map isAlpha).getD false then some .skipHeaderLine
-  else do
-    let yy ← parseInt? (get vs "year")
-    let yr4 ← parseInt? ((if 80 ≤ yy ∧ yy ≤ 99 then ['1', '9'] else ['2', '0']) ++ zfill 2 (get vs "year"))
-    let mo ← parseInt? (get vs "month"); let d ← parseInt? (get vs "day")
-    let h ← parseInt? (get vs "hour"); let mi ← parseInt? (get vs "minute"); let s ← parseFloat (get vs "second")
-    let cl ← clockNames.mapM fun n => (floatField (get vs n)).map fun q => (n, q)
-    let sat := system ++ zfill 2 (get vs "sat")
-    pure (.ok ⟨sat.take 1, sat, yr4, mo, d, h, mi, s⟩ cl)
+  else (epoch2 system vs).bind fun e => (clockOf vs).map fun cl => .ok e cl
 
 /-- seconds since the GPS epoch of the printed civil epoch.  `frac7` is the 7-digit fraction of
 `'{:010.7f}'.format(second)`; the single-system path feeds it to `timedelta(milliseconds=…)`,
